@@ -482,6 +482,7 @@ pub open spec fn ends_ok(net: &Network, s: Seq<NodeIdx>) -> bool {
 //@end
 
 //@include env/tour_stubs.vs
+//@include-trusted env/path_fns.vs
 //@include-trusted env/tour_pos_fns.vs
 //@item solution/src/tour.rs Tour::is_dummy
 //@retname r
